@@ -15,7 +15,7 @@ fn cfg(tier: Tier, index: u64) -> HistCfg {
     w.len = 1;
     w.is_empty = 0;
     w.reopen = if index % 5 == 0 { 1 } else { 0 };
-    HistCfg {
+    let mut c = HistCfg {
         kts: Kt::ALL.to_vec(),
         key: KeyProfile::Medium,
         n_keys: 1..=30,
@@ -38,7 +38,16 @@ fn cfg(tier: Tier, index: u64) -> HistCfg {
             ..Default::default()
         },
         target_pct: 10,
+        prelude: Prelude::None,
+        phases: false,
+        special_keys: false,
+        default_table: false,
+    };
+    rare_regions(&mut c, index);
+    if c.prelude != Prelude::None {
+        c.ops.n_ops = tier.pick(0..=40, 0..=80);
     }
+    c
 }
 
 fn nontrivial(_h: &History, r: &Report) -> bool {
